@@ -24,6 +24,11 @@ Proof.
   destruct (Z.eqb y (Z.of_nat x)); reflexivity.
 Qed.
 
+Lemma acnt_cli_other x t name args :
+  String.eqb name "pool_alloc" = false -> String.eqb name "pool_free" = false ->
+  acnt x (Conc.tag t [EvCli name args]) = 0%Z.
+Proof. intros N1 N2. cbn [Conc.tag map acnt]. rewrite ad_cli_other; auto. Qed.
+
 (** an access to something that is not a lock object's spin word *)
 Definition not_lock_obj (o : list Z) : Prop := forall x, is_lacc x (EvAcc KLd o true) = false.
 Lemma nlo_ref n : not_lock_obj (obj_ref n). Proof. intros x; reflexivity. Qed.
@@ -193,7 +198,7 @@ Proof.
       * left. split; auto. intros t0. rewrite E, andb_false_r. cbn. rewrite Hn. reflexivity.
       * right. split; auto. exists t0. rewrite E, andb_false_r. cbn. split; [lia|].
         intros t' N. rewrite E, andb_false_r. cbn. rewrite Hn by exact N. reflexivity.
-  - apply InvD_frame with (g := g); auto; [reflexivity|]. apply disc_cli_other; reflexivity.
+  - apply InvD_frame with (g := g); auto; [intros; apply acnt_cli_other; reflexivity|]. apply disc_cli_other; reflexivity.
 Qed.
 
 Lemma step_leave g vs rf tr t n x s :
@@ -217,11 +222,11 @@ Proof.
       destruct (HO n) as [[_ Hn]|[Hz [t0 [H0 Hn]]]]; [rewrite Hn in Hme; lia|].
       assert (t0 = t) by (destruct (Nat.eq_dec t0 t) as [X|X]; [exact X|]; rewrite (Hn t) in Hme by congruence; lia). subst t0.
       left. split; [lia|]. intros t0. specialize (E t0). destruct (Nat.eqb_spec t0 t) as [EQ|N]; [subst t0|]; cbn in E.
-      * rewrite Nat.eqb_refl in E. cbn in E. lia.
-      * rewrite <- E, Nat.add_0_r in *. rewrite E. apply Hn. exact N.
+      * cbn in E. lia.
+      * rewrite Nat.add_0_r in E. rewrite E. apply Hn. exact N.
     + rewrite Z.add_0_r. destruct (HO n0) as [[Hz Hn]|[Hz [t0 [H0 Hn]]]].
       * left. split; auto. intros t0. specialize (E t0). rewrite andb_false_r in E. cbn in E. rewrite Hn in E. lia.
       * right. split; auto. exists t0. pose proof (E t0) as E0. rewrite andb_false_r in E0. cbn in E0. split; [lia|].
         intros t' N. specialize (E t'). rewrite andb_false_r in E. cbn in E. rewrite Hn in E by exact N. lia.
-  - apply InvD_frame with (g := g); auto; [reflexivity|]. apply disc_cli_other; reflexivity.
+  - apply InvD_frame with (g := g); auto; [intros; apply acnt_cli_other; reflexivity|]. apply disc_cli_other; reflexivity.
 Qed.
